@@ -216,6 +216,9 @@ class ElfWriter:
         # Write sections contained in images:
         for image in self.obj.images:
             self.align_to(self.page_size)
+            # A loadable segment must have p_offset equal to p_vaddr,
+            # modulo the page size:
+            self.f.write(bytes(image.address % self.page_size))
             file_offset = self.f.tell()
 
             for section in image.sections:
